@@ -418,11 +418,9 @@ func registerIntrinsics(e *Engine) {
 			sbAppend(fr, a, strTerms(string(r)))
 			return tuple{len(string(r)), iface{}}
 		case sym:
-			if !r.ps.decide(smt.BvCmp(smt.OpBvUlt, r.t, smt.BV(0x80, 32))) {
-				panic(unsupported{"WriteRune of non-ASCII symbolic rune"})
-			}
-			sbAppend(fr, a, []*smt.Term{smt.Extract(r.t, 7, 0)})
-			return tuple{1, iface{}}
+			ts := encodeRuneSym(r.ps, r.t)
+			sbAppend(fr, a, ts)
+			return tuple{len(ts), iface{}}
 		}
 		panic(unsupported{"WriteRune"})
 	}
@@ -887,6 +885,20 @@ func (i *interpreter) formatPadded(verb byte, width int, arg value) value {
 	if itf, ok := arg.(iface); ok {
 		v = itf.v
 	}
+	if x, ok := v.(sym); ok && verb != 'd' && x.t.Width > 4*width {
+		// more bits than the padded width shows: one fork per number of significant digits
+		if kindSigned(x.k) && !i.ps.decide(smt.Not(smt.BvCmp(smt.OpBvSlt, x.t, smt.BV(0, x.t.Width)))) {
+			panic(unsupported{"zero-padded hexadecimal format of a negative symbolic number"})
+		}
+		digits := width
+		for 4*digits < x.t.Width && !i.ps.decide(smt.BvCmp(smt.OpBvUlt, x.t, smt.BV(uint64(1)<<(4*uint(digits)), x.t.Width))) {
+			digits++
+		}
+		if 4*digits < x.t.Width {
+			return i.formatPadded(verb, digits, sym{t: smt.Extract(x.t, 4*digits-1, 0), k: types.Uint64, ps: x.ps})
+		}
+		return i.formatPadded(verb, digits, sym{t: x.t, k: types.Uint64, ps: x.ps})
+	}
 	if x, ok := v.(sym); ok && verb != 'd' && x.t.Width <= 4*width {
 		letter := uint64('a')
 		if verb == 'X' {
@@ -1010,4 +1022,30 @@ func (i *interpreter) formatSymbolic(fr *frame, f sstr, args []value) value {
 		parts = append(parts, "%!(EXTRA ...)")
 	}
 	return concatStr(ps, parts)
+}
+
+
+// encodeRuneSym: the UTF-8 encoding of a symbolic rune as utf8.AppendRune produces it, one fork per
+// length class; surrogates and values outside Unicode become U+FFFD.
+func encodeRuneSym(ps *pathState, r *smt.Term) []*smt.Term {
+	lt := func(n uint64) bool { return ps.decide(smt.BvCmp(smt.OpBvUlt, r, smt.BV(n, 32))) }
+	part := func(shift uint64, mask, lead uint64) *smt.Term {
+		x := smt.BvBin(smt.OpBvAnd, smt.BvBin(smt.OpBvLshr, r, smt.BV(shift, 32)), smt.BV(mask, 32))
+		return smt.BvBin(smt.OpBvOr, smt.Extract(x, 7, 0), smt.BV(lead, 8))
+	}
+	replacement := []*smt.Term{smt.BV(0xEF, 8), smt.BV(0xBF, 8), smt.BV(0xBD, 8)}
+	switch {
+	case lt(0x80):
+		return []*smt.Term{smt.Extract(r, 7, 0)}
+	case lt(0x800):
+		return []*smt.Term{part(6, 0x1F, 0xC0), part(0, 0x3F, 0x80)}
+	case lt(0x10000):
+		if !lt(0xD800) && lt(0xE000) {
+			return replacement
+		}
+		return []*smt.Term{part(12, 0x0F, 0xE0), part(6, 0x3F, 0x80), part(0, 0x3F, 0x80)}
+	case lt(0x110000):
+		return []*smt.Term{part(18, 0x07, 0xF0), part(12, 0x3F, 0x80), part(6, 0x3F, 0x80), part(0, 0x3F, 0x80)}
+	}
+	return replacement
 }
